@@ -70,6 +70,8 @@ type world struct {
 	// tree that looks the host up is waiting.
 	glueless  string
 	midFlight func()
+	tight     int // referrals whose observation window a follow-up DNSKEY query narrowed
+	unclean   int // windows with pending referrals in which a side tree was at work
 
 	apex    []string   // apex[0] = ".", apex[j] = level j
 	zones   []*zm.Zone // original zones, zones[0] = root
@@ -453,6 +455,7 @@ func (w *world) settle() {
 			clean, cleanKnown = w.windowClean(from), true
 		}
 		if !clean {
+			w.unclean++
 			continue
 		}
 		// PacketLog.At counts from the creation of the universe, which is
@@ -462,6 +465,7 @@ func (w *world) settle() {
 			if pk.QType == dns.TypeDNSKEY && pk.QNameL == w.apex[r.Level-1] && !pk.Sink {
 				if at := pk.At + w.sk; at < r.Q && at >= r.SentV {
 					r.QT, r.Tight = at, true
+					w.tight++
 				}
 				break
 			}
